@@ -4,7 +4,7 @@ import os
 import random
 import time
 
-from common import (ToolError, Work, build_harness, exec_script, harness, log, read_ndjson, tlc, tlc_text,
+from common import (ConfigUnavailable, ToolError, Work, build_harness, exec_script, harness, log, read_ndjson, tlc, tlc_text,
                     validate_trace, write_ndjson, VERIF)
 import gen
 
@@ -378,6 +378,15 @@ def nostd_run(ctx, kind, n):
     rows = gen.random_plain(ctx.rng, kind, n)
     rows += (gen.roundtrip_cc14 if kind == "cc14" else gen.roundtrip_pn)(ctx.rng, max(n // 20, 100), first_id=2)
     rows += gen.long_runs(ctx.rng, kind, 0, lengths=[1, 2, 255, 256, 257, 65535, 65536], base_id=810)
+    try:
+        build_harness("std")
+        build_harness("nostd")
+    except ConfigUnavailable as e:
+        note = "configuration `nostd` skipped for the %s scanner: the crate under test does not build there" % kind
+        if note not in ctx.notes:
+            ctx.notes.append(note)
+        log("NOTE " + note + "\n" + str(e)[-600:])
+        return
     run_script(ctx, rows, "without-std-" + kind, config="nostd")
 
 
